@@ -171,7 +171,9 @@ P("C01", [("K12", None), ("V1", None), ("V3", None), ("V18", None), ("V23", None
   "stream is empty, nothing definite after a flounder or an interruption, the Unique payload is the stream's answer unchanged; Verus proves combine never manufactures a Unique, "
   "that the recursive fixed point starts from bottom/top as the semantics requires, and that the tabling step solve_goal records every dependency on a provisional answer (V18), and that the answer solve_new_subgoal leaves for a goal is a fixed point of its last iteration unless that iteration did not depend on the goal itself (V23), and is made permanent exactly when its SCC is complete (V24). For negative goals, Verus checks that the folder which turns universally quantified names into existentials before a `not { }` is refuted overrides the callback of EVERY kind of placeholder (V31: a missing one falls back to the trait default, which keeps the name; refuted for constants on the pinned tree - genuine defect `forall<const N> { not { S<N>: Trait } }` = Unique, repaired by /repo commit e224150). BOUNDED (stream length <= 2/3); Verus parts unbounded.",
   "Assumed: the answer stream itself is sound and complete, i.e. SLG resolution and the recursive search against the program's logical meaning — the bulk of C01 — are NOT verified "
-  "(no function of chalk has the logical meaning as an argument or view; logic.rs is out of reach of both tools).",
+  "(no function of chalk has the logical meaning as an argument or view; logic.rs is out of reach of both tools). NOT decided either: make_solution's guidance when the answers carry a non-empty "
+  "substitution - the harnesses for 'a table that flounders behind the first answer gives no definite guidance' (the defect repaired by dda75a5, DESIGN section 6h) do not finish in CBMC, "
+  "so K12 runs answers with the empty substitution plus one [answer, no-more] stream with a one-element substitution.",
   "contract-based verification: Kani harness contract over enumerated streams + Verus on extracted text")
 
 P("C28", [("V5", None), ("K12", r"_ans"), ("V1", None), ("K8", r"laws"), ("V8", None), ("V30", None)],
